@@ -245,17 +245,3 @@ Proof.
   - destruct x0; discriminate.
 Qed.
 
-Theorem current_regex_exact r v :
-  exact_shape r = true -> match v with Some x => plain x | None => True end ->
-  current_match r v = repaired_match r v.
-Proof.
-  unfold exact_shape, shape_of. intros Hs Hp.
-  destruct (as_literal r) as [x |] eqn:E1.
-  - apply as_literal_inv in E1. destruct E1 as (c & l & _ & ->). apply current_exact_literal. exact Hp.
-  - destruct (as_begin_literal r) as [x |] eqn:E2.
-    + apply as_begin_literal_inv in E2. destruct E2 as (c & l & _ & -> & Ep).
-      apply current_exact_begin_literal; [apply plainb_spec; exact Ep | exact Hp].
-    + destruct (negb (has_assert r) && nullable r) eqn:E; [| discriminate].
-      apply andb_true_iff in E. destruct E as [Ea En]. apply negb_true_iff in Ea.
-      apply current_exact_matchall; assumption.
-Qed.
